@@ -97,6 +97,26 @@ class U2:
 class Con:
     n: Annotated[int, schema(min=5)] = 5
     items: Annotated[List[int], schema(max_items=1)] = field(default_factory=list)
+
+# a class which is not a dataclass: its fields come from set_object_fields only
+class PNode:
+    def __init__(self, value=0, child=None):
+        self.value, self.child = value, child
+    def __repr__(self): return f"PNode({self.value!r}, {self.child!r})"
+
+# a per-call default_conversion that makes Folder recursive (User -> its folders)
+@dataclass
+class User:
+    name: str = "u"
+    folders: list = field(default_factory=list)
+@dataclass
+class Folder:
+    name: str = "f"
+    owner: User = field(default_factory=User)
+def _user_folders(u: User) -> List[Folder]: return u.folders
+def folder_dc(tp):
+    from apischema.conversions.converters import default_serialization
+    return _user_folders if tp is User else default_serialization(tp)
 '''
 
 
@@ -232,6 +252,16 @@ def _(m):
     set_object_fields(m.DC, [ObjectField("a_b", int, required=False, default=0), ObjectField("c", Optional[m.DC], required=False, default=None)])
 
 
+@op("set_object_fields:PNode+rec")
+def _(m):
+    # a plain class made an object type, recursive at once
+    from typing import Optional
+
+    from apischema.objects import ObjectField, set_object_fields
+
+    set_object_fields(m.PNode, [ObjectField("value", int, required=False, default=0), ObjectField("child", Optional[m.PNode], required=False, default=None)])
+
+
 @op("deserializer:K<-Holder")
 def _(m):
     # K deserialized from the shape of Holder, which holds a K: a cycle through a conversion
@@ -355,6 +385,10 @@ def observations(m) -> List[Tuple[str, Callable[[], Any]]]:
         add(f"dschema({t})", lambda t=t: deserialization_schema(getattr(m, t)))
         add(f"sschema({t})", lambda t=t: serialization_schema(getattr(m, t)))
     add("dschema(Cat|Dog)", lambda: deserialization_schema(Union[m.Cat, m.Dog]))
+    add("D(PNode)", lambda: D(m.PNode, {"value": 1, "child": {"value": 2}}))
+    add("S(PNode)", lambda: S(m.PNode, m.PNode(1, m.PNode(2))))
+    add("S(Folder)", lambda: S(m.Folder, m.Folder("a", m.User("u", [m.Folder("b")]))))
+    add("S(Folder,default_conversion)", lambda: S(m.Folder, m.Folder("a", m.User("u", [m.Folder("b")])), default_conversion=m.folder_dc))
     add("M(DC)", lambda: apischema.deserialization_method(m.DC)({"a_b": 1}))
     add("SM(DC)", lambda: apischema.serialization_method(m.DC)(m.DC(3, "z")))
     return obs
@@ -432,6 +466,11 @@ def check_history(hist: List[str], st: infra.Stats, cold_cache: Dict[tuple, Any]
     st.count("transitions", len(hist))
     st.note("configs", cfg)
     st.case(cfg)
+    for name, r in cold:
+        if r[0] == "exc" and r[1].startswith("RecursionError"):
+            # whatever the history, compiling a method terminates
+            st.violation({"signature": {"kind": "recursion_error", "observation": name.split("(")[0] + "(" + name.split("(")[1].split(",")[0].rstrip(")") + ")"}, "what": f"after {list(cfg)} (cold start): {name} raised RecursionError", "history": list(cfg)})
+            break
     d1 = diff(warm, cold)
     d2 = diff(after_reset, cold)
     if d1:
